@@ -426,8 +426,12 @@ func (r *runner) handleInterrupt(
 		Inputs:         make(map[string]any),
 		SkipPreHandler: map[string]bool{},
 	}
-	if state, ok := ctx.Value(stateKey{}).(*internalState); ok {
-		cp.State = state.state
+	if r.runCtx != nil {
+		// only a graph that declares state owns the state found in the context; a nested graph
+		// without state shares its parent's state object, which the parent saves and restores
+		if state, ok := ctx.Value(stateKey{}).(*internalState); ok {
+			cp.State = state.state
+		}
 	}
 	intInfo := &InterruptInfo{
 		State:       cp.State,
@@ -506,8 +510,12 @@ func (r *runner) handleInterruptWithSubGraphAndRerunNodes(
 		SkipPreHandler: skipPreHandler,
 		SubGraphs:      make(map[string]*checkpoint),
 	}
-	if state, ok := ctx.Value(stateKey{}).(*internalState); ok {
-		cp.State = state.state
+	if r.runCtx != nil {
+		// only a graph that declares state owns the state found in the context; a nested graph
+		// without state shares its parent's state object, which the parent saves and restores
+		if state, ok := ctx.Value(stateKey{}).(*internalState); ok {
+			cp.State = state.state
+		}
 	}
 	intInfo := &InterruptInfo{
 		State:      cp.State,
